@@ -503,6 +503,18 @@ def model_rows(out):
     return [sorted(rows), tags]
 
 
+def canon_untag_order(op, seq):
+    """Database.undeclare removes the tags on the version in the order Database.findTags meets the chain files, i.e.
+    os.listdir order, which the file system chooses; the model fixes the order in which the chain files were created.
+    The leading run of chain-file effects of an undeclare is therefore compared as a set"""
+    if op["op"] != "undeclare":
+        return list(seq)
+    n = 0
+    while n < len(seq) and seq[n][1].endswith(".chain"):
+        n += 1
+    return sorted(seq[:n]) + list(seq[n:])
+
+
 def compare_effect_sequences(ctx, cases):
     """second layer of the tie: the ordered record-level effects (kind, path) the real operation performed, read off
     the trace of its completed run, against Model/CrashDb.image of Db.effects on the model's image of the prior state
@@ -510,6 +522,7 @@ def compare_effect_sequences(ctx, cases):
     outs = ctx.model([effects_line(c) for c in cases])
     for c, out in zip(cases, outs):
         status, model = parse_effects(out)
+        model = [tuple(e) for e in model]
         trace = c["_full"]["info"]["trace"] or []
         effs, _ = effects_from(trace, c["_full"]["after"])
         real = []
@@ -518,9 +531,12 @@ def compare_effect_sequences(ctx, cases):
             if k == "M" and real and real[-1] == e:
                 continue        # os.makedirs and the os.mkdir it calls are both traced: one directory creation
             real.append(e)
+        c["_meffs"], c["_reffs"] = model, real
         ctx.traces_validated += 1
         ctx.bump("effect-sequences-compared")
-        if [tuple(e) for e in model] != real:
+        if model != real:
+            ctx.bump("effect-sequences-equal-up-to-listdir-order-of-untags")
+        if canon_untag_order(c["op"], model) != canon_untag_order(c["op"], real):
             ctx.disagree({"history": c["history"], "op": c["op"]},
                          "%s %s" % (status, ";".join("%s:%s" % e for e in model)),
                          "%s %s" % (c["_full"]["info"]["outcome"], ";".join("%s:%s" % e for e in real)),
@@ -643,9 +659,12 @@ def explore(ctx, cases, flush=True):
             # what the fresh reader reports at this crash point against Model/CrashDb.read_db on the model's store
             # after the same number of completed record-level effects
             j = sum(1 for i in main_effect_indices(trace) if i < k)
-            vlines.append("\t".join(["crashview", "0", "stack", "|".join(op_model(o) for o in c["history"]),
-                                     op_model(c["op"]), str(j)]))
-            vmeta.append((c, k, r))
+            if sorted(c["_meffs"][:j]) == sorted(c["_reffs"][:j]):
+                vlines.append("\t".join(["crashview", "0", "stack", "|".join(op_model(o) for o in c["history"]),
+                                         op_model(c["op"]), str(j)]))
+                vmeta.append((c, k, r))
+            else:       # the real undeclare met the chain files in another (os.listdir) order than the model
+                ctx.bump("crash-view-not-compared(untag order of the real run differs from the model's)")
         if atomic and all(v == 1 for v in writes.values()):
             # position in the model's system calls: all calls of the completed effects
             pos = 0
